@@ -184,7 +184,7 @@ func runGated(kA, kB string, k, m int, tok string) (ra, rb gatedResult, evA, evB
 	return ra, rb, ga.count, gb.count
 }
 
-var gatedKinds = []string{"plain", "ctxval", "probectx", "fail1", "fmtopt", "fail2", "coerce", "custom", "catch", "badjson", "nulljson", "vslice", "freshfail", "pterr", "list2", "listS", "primcatch", "vnesteddef", "tdestA", "tdestB"}
+var gatedKinds = []string{"slice2t", "struct2t", "plain", "ctxval", "probectx", "fail1", "fmtopt", "fail2", "coerce", "custom", "catch", "badjson", "nulljson", "vslice", "freshfail", "pterr", "list2", "listS", "primcatch", "vnesteddef", "tdestA", "tdestB"}
 
 func gatedEpisodes(r *rand.Rand, maxPairs int, stats map[string]int, distinct map[string]bool, samples *[]string) {
 	pairs := [][2]string{}
@@ -446,7 +446,7 @@ var schListStr = z.String().Min(5).Email()
 
 var schPathOK = z.Struct(z.Schema{"a": z.Int().GT(0, z.IssuePath("elsewhere")).LT(100, z.IssuePath("other.place"))})
 
-var callKinds = []string{"issuepathok", "listS", "tdestA", "tdestB", "panicnested", "vnesteddef", "nested", "nestedelem", "badjson", "nulljson", "okjson", "plain", "ctxval", "probectx", "fail1", "fmtopt", "fail2", "coerce", "custom", "catch",
+var callKinds = []string{"slice2t", "struct2t", "issuepathok", "listS", "tdestA", "tdestB", "panicnested", "vnesteddef", "nested", "nestedelem", "badjson", "nulljson", "okjson", "plain", "ctxval", "probectx", "fail1", "fmtopt", "fail2", "coerce", "custom", "catch",
 	"vslice", "vptrcatch", "vptrnil", "pterr", "list2", "primcatch", "primcatchok", "stest", "pnotnil", "scoerce", "slicetest", "freshfail", "freshvalidate"}
 
 // a schema that is BUILT for the current episode and first used by the goroutines of that episode
@@ -467,6 +467,9 @@ var (
 	schPrimCatch = z.Int().GT(5).Catch(0)
 	schStest     = z.Struct(z.Schema{"a": z.Int()}).TestFunc(func(v any, ctx z.Ctx) bool { return false }, z.Message("struct-level"))
 	schSliceTest = z.Slice(z.Int()).Min(3)
+	// two schema-level tests on one root node: both are reported whatever an earlier call left in a recycled context
+	schSlice2T  = z.Slice(z.String()).Min(3).Contains("go")
+	schStruct2T = z.Struct(z.Schema{"a": z.Int()}).TestFunc(func(v any, ctx z.Ctx) bool { return false }, z.Message("first")).TestFunc(func(v any, ctx z.Ctx) bool { return false }, z.Message("second"))
 )
 
 // run one call of the alphabet on the real library; tok distinguishes this call's context value
@@ -580,6 +583,17 @@ func doCall(kind, tok string) callOut {
 		var s []int
 		m = schSliceTest.Parse([]any{1, 2}, &s)
 		extra = fmt.Sprint(s)
+	case "slice2t":
+		var s []string
+		m = schSlice2T.Parse([]any{"a", "b"}, &s)
+		extra = fmt.Sprint(s)
+		s2 := []string{"c"}
+		m2 := schSlice2T.Validate(&s2)
+		extra += fmt.Sprintf(" validate=%d", len(m2["$root"]))
+	case "struct2t":
+		m = schStruct2T.Parse(map[string]any{"a": 5}, &d)
+		d2 := pdest{A: 4}
+		extra = fmt.Sprintf("validate=%d", len(schStruct2T.Validate(&d2)["$root"]))
 	case "freshfail":
 		var fd freshD
 		m = epFresh.Parse(map[string]any{"name": "ab", "age": -1, "tags": []any{"x", "yy"}}, &fd)
